@@ -11,7 +11,7 @@ use std::{
     time::Duration,
 };
 
-use cfgrammar::{Spanned, header::GrmtoolsSectionParser, yacc::{YaccGrammar, ast::ASTWithValidityInfo}};
+use cfgrammar::{Spanned, header::{GrmtoolsSectionParser, Header, HeaderValue, Namespaced, Setting, Value as HValue}, yacc::{YaccGrammar, ast::ASTWithValidityInfo}};
 use lrlex::{DefaultLexerTypes, LRNonStreamingLexerDef, LexerDef};
 use lrpar::diagnostics::{DiagnosticFormatter, SpannedDiagnosticFormatter};
 use serde_json::{Value, json};
@@ -22,10 +22,47 @@ fn spans_of<T: Spanned>(e: &T) -> Vec<[usize; 2]> {
     e.spans().iter().map(|s| [s.start(), s.end()]).collect()
 }
 
+fn cps(s: &str) -> Vec<u32> {
+    s.chars().map(|c| c as u32).collect()
+}
+
+fn ns_json(n: &Namespaced<cfgrammar::Span>) -> Value {
+    match &n.namespace {
+        Some((ns, sp)) => json!({"has_ns": true, "ns": cps(ns), "ns_span": [sp.start(), sp.end()],
+                                 "member": cps(&n.member.0), "span": [n.member.1.start(), n.member.1.end()]}),
+        None => json!({"has_ns": false, "ns": [], "ns_span": [0, 0],
+                       "member": cps(&n.member.0), "span": [n.member.1.start(), n.member.1.end()]}),
+    }
+}
+
+fn setting_json(v: &Setting<cfgrammar::Span>) -> Value {
+    match v {
+        Setting::Num(_, sp) => json!({"t": "num", "span": [sp.start(), sp.end()]}),
+        Setting::String(_, sp) => json!({"t": "str", "span": [sp.start(), sp.end()]}),
+        Setting::Array(vals, o, c) => json!({"t": "arr", "vals": vals.iter().map(setting_json).collect::<Vec<_>>(),
+                                             "open": [o.start(), o.end()], "close": [c.start(), c.end()]}),
+        Setting::Unitary(n) => json!({"t": "unit", "ns": ns_json(n)}),
+        Setting::Constructor { ctor, arg } => json!({"t": "ctor", "ctor": ns_json(ctor), "arg": ns_json(arg)}),
+    }
+}
+
+/// the parsed section, entry by entry (the map iterates in key order)
+fn header_entries(hdr: &Header<cfgrammar::Span>) -> Vec<Value> {
+    hdr.into_iter()
+        .map(|(k, HeaderValue(loc, v))| {
+            let vj = match v {
+                HValue::Flag(b, sp) => json!({"t": "flag", "on": b, "span": [sp.start(), sp.end()]}),
+                HValue::Setting(st) => setting_json(st),
+            };
+            json!({"key": cps(k), "key_span": [loc.start(), loc.end()], "v": vj})
+        })
+        .collect()
+}
+
 fn one(entry: &str, s: &str) -> Value {
     let r = catch(|| match entry {
         "header" => match GrmtoolsSectionParser::new(s, false).parse() {
-            Ok((_, pos)) => json!({"class": "ok", "pos": pos, "errors": [], "warnings": []}),
+            Ok((hdr, pos)) => json!({"class": "ok", "pos": pos, "errors": [], "warnings": [], "entries": header_entries(&hdr)}),
             Err(es) => json!({"class": "err", "errors": es.iter().map(|e| json!({"kind": e.to_string(), "spans": spans_of(e)})).collect::<Vec<_>>()}),
         },
         "lex" => match LRNonStreamingLexerDef::<DefaultLexerTypes<u32>>::from_str(s) {
